@@ -15,6 +15,17 @@ pub type MMO = Map<u8, MO, A>;
 pub type MMM = Map<u8, MM, A>;
 pub type MMMO = Map<u8, MMO, A>;
 
+/// derive_add_ctx, then fast-forward the dot by `jump` counters (jump 0: exactly what the API returned)
+fn derive_j<V>(rc: ReadCtx<V, A>, actor: A, jump: u64) -> (AddCtx<A>, Option<(DotT, Clk, Clk)>) {
+    let (mut ctx, d) = derive(rc, actor);
+    if jump == 0 {
+        return (ctx, Some(d));
+    }
+    ctx.dot.counter += jump;
+    ctx.clock.apply(ctx.dot.clone());
+    (ctx, None)
+}
+
 fn derive<V>(rc: ReadCtx<V, A>, actor: A) -> (AddCtx<A>, (DotT, Clk, Clk)) {
     let add_clock = vc(&rc.add_clock);
     let ctx = rc.derive_add_ctx(actor);
@@ -235,13 +246,14 @@ impl Sut for OS {
             if cmd.k == "add" && cmd.a.is_empty() {
                 return None;
             }
-            let (ctx, d) = derive(self.read_ctx(), actor);
-            let want = sh.take_dot(actor);
+            let (ctx, d) = derive_j(self.read_ctx(), actor, cmd.jump);
+            let want = sh.take_dot_j(actor, cmd.jump);
             let op = os_exec(self, cmd, Some(old), &mut acc, &[], Some(want), Some(ctx));
             let mut g = Gen::new(op, acc.desc);
             g.facts = acc.facts;
             g.want_dot = Some(want);
-            g.derived = Some(d);
+            g.derived = d;
+            g.jumped = cmd.jump > 0;
             Some(g)
         } else {
             let op = os_exec(self, cmd, Some(old), &mut acc, &[], None, None);
@@ -338,18 +350,19 @@ impl Sut for MV {
         c.src(if rng.chance(1, 2) { "read_ctx" } else { "read" })
     }
     fn gen(&self, actor: A, cmd: &Cmd, sh: &mut Shadow, _old: &Self) -> Option<Gen<Self::Op>> {
-        let (ctx, d) = derive(if cmd.src == "read" { self.read().split().1 } else { self.read_ctx() }, actor);
+        let (ctx, d) = derive_j(if cmd.src == "read" { self.read().split().1 } else { self.read_ctx() }, actor, cmd.jump);
         let uniq = sh.uniq();
         // equal-values configuration ("write_val"): concurrent writers deliberately write the same payload
         let val = if cmd.k == "write_val" { cmd.arg(0) as u32 } else { uniq };
-        sh.nwrites[actor as usize] += 1;
+        sh.nwrites[actor as usize] += 1 + cmd.jump;
         let idx = sh.nwrites[actor as usize];
         let rf_vals = self.read().val;
         let op = self.write(val, ctx);
         let mut g = Gen::new(op, format!("write({val})"));
         g.facts.push(Fact::MvPut { val, actor, idx });
         g.want_dot = Some((actor, idx));
-        g.derived = Some(d);
+        g.derived = d;
+        g.jumped = cmd.jump > 0;
         g.rf_vals = rf_vals;
         Some(g)
     }
@@ -553,8 +566,8 @@ where
                 "is_empty" => m.is_empty().split().1,
                 _ => m.read_ctx(),
             };
-            let (ctx, d) = derive(rc, actor);
-            let want = sh.take_dot(actor);
+            let (ctx, d) = derive_j(rc, actor, cmd.jump);
+            let want = sh.take_dot_j(actor, cmd.jump);
             let k = cmd.arg(0) as u8;
             let old_v = old.get(&k).val;
             acc.desc = format!("update [{k}].");
@@ -564,7 +577,8 @@ where
             g.rf_vals = acc.rf_vals;
             g.rm_ctxs = acc.rm_ctxs;
             g.want_dot = Some(want);
-            g.derived = Some(d);
+            g.derived = d;
+            g.jumped = cmd.jump > 0;
             Some(g)
         }
         ("rm_key", _) => {
